@@ -140,6 +140,41 @@ example : let σ : St := { next := 3, env := [(V.field, Obj.arr 0), (V.pos, Obj.
     ∧ (run σ (prog .fieldCall { fieldGiven := true, process := true, save := true })).written ≠ [] := by
   decide
 
+/-- what comes out of a call references only buffers that exist: the returned arrays, the stored fields and
+    the variables are well formed again (so "every id below `next`" really is "everything reachable") -/
+theorem outputs_well_formed (ep : EP) (c : Cfg) (σ : St) (h : WF σ) : WF (run σ (prog ep c)) := run_wf _ h
+
+/-- **C20 by reachability.**  In a well-formed heap every array the caller can reach — through an argument,
+    through an attribute (stored field, condition, …) or through an earlier return value — has the same
+    contents after the call. -/
+theorem reachable_unchanged (ep : EP) (c : Cfg) (σ : St) (h : WF σ) :
+    (∀ x b, b ∈ (get σ.env x).all → (run σ (prog ep c)).ver b = σ.ver b) ∧
+    (∀ n b, b ∈ (get σ.attrs n).all → (run σ (prog ep c)).ver b = σ.ver b) ∧
+    (∀ o, o ∈ σ.rets → ∀ b, b ∈ o.all → (run σ (prog ep c)).ver b = σ.ver b) :=
+  have hw := (no_caller_write ep c σ).1
+  ⟨fun x b hb => hw b (h.env x b hb), fun n b hb => hw b (h.attrs n b hb), fun o ho b hb => hw b (h.rets o ho b hb)⟩
+
+/-- the statement is not vacuous: aliasing is real in the model.  `Field.__call__(pos, field=a, post_process=False)`
+    hands the caller's own buffer back and stores it — and with `post_process=True` (mean, normalizer, trend)
+    it does in-place arithmetic, in its own copy -/
+theorem fieldCall_aliases_without_writing :
+    ∃ σ : St, WF σ ∧ (get σ.env V.field).bufs = [0] ∧
+      (let σ' := run σ (prog .fieldCall { fieldGiven := true, save := true })
+       σ'.rets.map (·.bufs) = [[0]] ∧ (get σ'.attrs N.field).bufs = [0] ∧ σ'.written = []) ∧
+      (let σ' := run σ (prog .fieldCall { fieldGiven := true, save := true, process := true })
+       σ'.written ≠ [] ∧ (∀ b, b ∈ σ'.written → 2 ≤ b) ∧ σ'.rets.map (·.bufs) ≠ [[0]]) := by
+  refine ⟨{ next := 2, env := [(V.field, Obj.arr 0), (V.pos, Obj.arr 1)], attrs := [], rets := [], written := [],
+            ver := fun _ => 0 }, ⟨?_, ?_, ?_⟩, rfl, by decide, by decide⟩
+  · intro x b hb
+    simp only [get_cons, get_nil] at hb
+    split at hb
+    · simp at hb; subst hb; decide
+    · split at hb
+      · simp at hb; subst hb; decide
+      · simp at hb
+  · intro n b hb; simp at hb
+  · intro o ho; cases ho
+
 /-! ### stored results -/
 
 /-- **C20, second half.**  Running an entry point rebinds only the attribute names it stores under: any
